@@ -1,5 +1,6 @@
 import CKT.Props.C01PTM
 import CKT.Sem.Signed
+import CKT.Props.C11Walsh
 /-!
 # C01 — the number `reconstruct_expectation_values` computes from exact outcome distributions is the uncut value
 
@@ -130,5 +131,82 @@ theorem SubExp.ofInstrs_final (G : GateSem K) (body : List Instr) (blocks : List
     runI G (blocksInstrs blocks) (actL (SubExp.ofInstrs G body blocks).body σ) = runI G (body ++ blocksInstrs blocks) σ := by
   rw [runI_append, runI_eq_actL G body]
   rfl
+
+/-! ### the hypotheses of `reconstruction_correct` can always be met -/
+
+/-- the measurement blocks that read the letters of `O` on the qubits `qs` into the bits `0, 1, …` -/
+def obsBlocks (O : PStr) (qs : List Nat) : List Block := qs.zipIdx.map fun qj => { q := qj.1, c := qj.2, l := O qj.1, e := true }
+
+/-- the canonical subexperiment of partition `p` for a choice: the chosen partition-local operations as gates (the
+`qpd_measure` markers in their signed-pair form, so no QPD bit is needed) followed by the blocks measuring `O` on `p` -/
+def canonicalSub (lab : Nat → Nat) (O : PStr) (supp : Nat → List Nat) (p : Nat) (ch : List (LTerm K)) : SubExp K :=
+  { body := ((choiceOps ch).filter fun o => blockOf lab o == p).map fun o => Prim.gate o.1 o.2,
+    blocks := obsBlocks O (supp p) }
+
+/-- **non-vacuity of `reconstruction_correct`, for every problem**: whenever the support of the observable inside each
+partition is listed (`supp p`: the qubits of partition `p` on which `O` is not the identity, without repetition), the
+canonical subexperiments satisfy all hypotheses about `sub` -/
+theorem canonicalSub_ok (e : Nat → Bool) (lab : Nat → Nat) (O : PStr) (supp : Nat → List Nat) (p : Nat) (ch : List (LTerm K))
+    (hnd : (supp p).Nodup) (hsupp : ∀ n, n ∈ supp p ↔ (lab n = p ∧ O n ≠ 0)) :
+    (canonicalSub lab O supp p ch).WF ∧
+    (canonicalSub lab O supp p ch).body.map (lop e) = (choiceOps ch).filter (fun o => blockOf lab o == p) ∧
+    memberStr (canonicalSub lab O supp p ch).blocks (fun _ => 0) = restr lab p O := by
+  have hq : ((obsBlocks O (supp p)).map (·.q)) = supp p := by
+    simp only [obsBlocks, List.map_map, Function.comp_def]
+    conv_rhs => rw [← List.zipIdx_map_fst 0 (supp p)]
+  have hbits : (measBits (canonicalSub lab O supp p ch).body) = [] := by
+    simp only [canonicalSub, measBits]
+    induction (List.filter (fun o => blockOf lab o == p) (choiceOps ch)) with
+    | nil => rfl
+    | cons o rest ih => simpa [Prim.clbits] using ih
+  refine ⟨⟨?_, ?_, ?_, ?_, ?_⟩, ?_, ?_⟩
+  · rw [hbits]; exact List.nodup_nil
+  · show ((obsBlocks O (supp p)).map (·.q)).Nodup
+    rw [hq]; exact hnd
+  · show ((obsBlocks O (supp p)).map (·.c)).Nodup
+    have : (obsBlocks O (supp p)).map (·.c) = List.range' 0 (supp p).length := by
+      simp only [obsBlocks, List.map_map, Function.comp_def]
+      rw [← List.zipIdx_map_snd 0 (supp p)]
+    rw [this]; exact List.nodup_range'
+  · intro b _
+    rw [hbits]; simp
+  · intro b hb _
+    simp only [canonicalSub, obsBlocks, List.mem_map] at hb
+    obtain ⟨qj, hqj, rfl⟩ := hb
+    have : qj.1 ∈ supp p := List.fst_mem_of_mem_zipIdx (x := qj) hqj
+    exact ((hsupp qj.1).1 this).2
+  · simp only [canonicalSub, List.map_map, Function.comp_def, lop]
+    exact List.map_id' _
+  · funext n
+    show memberStr (obsBlocks O (supp p)) (fun _ => 0) n = restr lab p O n
+    by_cases hn : n ∈ supp p
+    · have hnq : n ∈ (obsBlocks O (supp p)).map (·.q) := by rw [hq]; exact hn
+      simp only [List.mem_map] at hnq
+      obtain ⟨b, hb, rfl⟩ := hnq
+      have hqnd : ((obsBlocks O (supp p)).map (·.q)).Nodup := by rw [hq]; exact hnd
+      rw [CKT.C11.memberStr_at _ _ hqnd b hb]
+      simp only [obsBlocks, List.mem_map] at hb
+      obtain ⟨qj, _, rfl⟩ := hb
+      simp [restr, ((hsupp qj.1).1 hn).1]
+    · have hnq : n ∉ (obsBlocks O (supp p)).map (·.q) := by rw [hq]; exact hn
+      rw [CKT.C11.memberStr_off _ _ n hnq]
+      unfold restr
+      by_cases hl : lab n = p
+      · have : O n = 0 := by
+          by_contra h0
+          exact hn ((hsupp n).2 ⟨hl, h0⟩)
+        simp [hl, this]
+      · simp [hl]
+
+/-- `reconstruction_correct` with the canonical subexperiments: no hypothesis about `sub` is left -/
+theorem reconstruction_correct_canonical (G : GateSem K) (ms : MeasSem G) (e : Nat → Bool) (lab : Nat → Nat) (S : Finset Nat)
+    (gs : List (CGate K)) (O : PStr) (supp : Nat → List Nat)
+    (hex : ∀ g ∈ gs, g.Exact) (hloc : ∀ g ∈ gs, g.Local lab S) (hO : ∀ n, lab n ∉ S → O n = 0)
+    (hnd : ∀ p ∈ S, (supp p).Nodup) (hsupp : ∀ p ∈ S, ∀ n, n ∈ supp p ↔ (lab n = p ∧ O n ≠ 0)) :
+    runOps (gs.map CGate.op) init0 O =
+      ((choices (gs.map CGate.slot)).map fun ch => choiceCoeff ch *
+        ∏ p ∈ S, (canonicalSub lab O supp p ch).decoded G e).sum :=
+  reconstruction_correct G ms e lab S gs O (canonicalSub lab O supp) hex hloc hO
+    (fun p hp ch _ => canonicalSub_ok e lab O supp p ch (hnd p hp) (hsupp p hp))
 
 end CKT.C01PTM
